@@ -158,7 +158,7 @@ harness_run(void)
     for (uint64_t i = 0; i < 256; i++)
         vh_unit("step", i, u_step, NULL);
     if (vh_tier) {
-        for (uint64_t i = 0; i < 65536; i += 1)
+        for (uint64_t i = 0; i < 65536; i += (vh_light ? 16 : 1))
             vh_unit("two", i, u_two, NULL);
     } else {
         /* quick: two-octet buffers from 64 seeded states */
